@@ -164,9 +164,10 @@ pub struct DgSpec {
     pub host_len: u16,
     pub port: u16,
     pub data_len: u32,
-    /// yields before sending
+    /// yields before sending; values from `DG_PARK` on: wait for the harness event `Wake(delay - DG_PARK)` instead
     pub delay: u8,
 }
+pub const DG_PARK: u8 = 200;
 
 #[derive(Clone, Debug, Hash, PartialEq, Eq, Serialize, Deserialize)]
 pub enum DgReader {
